@@ -151,3 +151,21 @@ Fixpoint flow (fs : list (str -> str)) (ls : list launch) (idx : nat) (pipes : n
 
 Fixpoint compose (fs : list (str -> str)) (x : str) : str :=
   match fs with [] => x | f :: r => compose r (f x) end.
+
+(* ---------- Pipeline::join / capture: which status is reported ---------- *)
+
+(* status k = the exit status of the k-th command started.  join waits for the last element of the vector
+   popen returned and reports that; capture does the same after the communication loop. *)
+Inductive jres := JPanic | JErr (k : nat) | JStatus (s : N).
+Definition pjoin (fails : nat -> bool) (p : pipeline) (status : nat -> N) : jres :=
+  match ppopen fails p with
+  | (ls, OOk) => JStatus (status (length ls - 1))
+  | (_, OErr k) => JErr k
+  | (_, OPanic) => JPanic
+  end.
+Definition pcapture (fails : nat -> bool) (p : pipeline) (status : nat -> N) : jres :=
+  match fst (setup_comm fails p) with
+  | (ls, OOk) => JStatus (status (length ls - 1))
+  | (_, OErr k) => JErr k
+  | (_, OPanic) => JPanic
+  end.
